@@ -219,6 +219,12 @@ def _task(arg):
                     if s != orc.dummy:
                         obs_dummy[s] = {fresh(c) for c in hands_dv[orc.dummy]}
                         f.call_method(obs[s], 'set_dummy_hand', obs_dummy[s])
+            if step in (13, 30) and not orc.done():
+                # a re-synchronisation: the dummy's remaining cards are disclosed again, in a new set object (set_dummy_hand may be called again)
+                for s in SEATS:
+                    if s != orc.dummy:
+                        obs_dummy[s] = {fresh(card_of[c]) for c in orc.hands[orc.dummy]}
+                        f.call_method(obs[s], 'set_dummy_hand', obs_dummy[s])
             # ---- C04: the table manager's engine against the oracle
             st = _observe(f, full, P)
             ctx = f'{ctx0}: after trick {orc.trick_num if orc.trick else orc.trick_num - 1}, card {len(orc.trick) or 4} ({show(card)} by {seat})'
@@ -251,6 +257,11 @@ def _task(arg):
                          f'the table manager\'s engine {st[k] if k != "history" else len(st[k] or [])}')
                 if {cid(c) for c in obs_hand[s]} != orc.hands[s]:
                     fail('C11', 'own hand of a replica', f'{ctx}: the replica of {s} holds {sorted(map(show, (cid(c) for c in obs_hand[s])))}, the seat holds {sorted(map(show, orc.hands[s]))}')
+                for label_, held_ in (('own hand', obs_hand[s]), ('dummy hand', obs_dummy[s])):
+                    dup_ = {cid(c) for c in held_} & orc.used if held_ is not None else set()
+                    if dup_:
+                        fail('C05', f'a played card is still in the {label_} of a replica', f'{ctx}: the replica of {s} still shows {sorted(map(show, dup_))[:3]} in the {label_} although '
+                             f'played: the card is in a hand and among the played cards at once')
                 if obs_dummy[s] is not None and {cid(c) for c in obs_dummy[s]} != orc.hands[orc.dummy]:
                     fail('C11', 'dummy\'s hand in a replica', f'{ctx}: the replica of {s} sees {len(obs_dummy[s])} cards in dummy, dummy holds {len(orc.hands[orc.dummy])}')
         else:
